@@ -423,7 +423,7 @@ def resolve (env : Env) (srcs : List Val) : Except Errs KVs :=
 mutual
 /-- `sanitizeExpanded(a, useOriginal)` -/
 def sanitize (useOriginal : Bool) : Val → Val
-  | .expanded v o => if useOriginal then .str o else v
+  | .expanded v o => if useOriginal then .str o else sanitize useOriginal v   -- repaired: the Value is sanitized too
   | .list xs => .list (sanVals useOriginal xs)
   | .map m => .map (sanKVs useOriginal m)
   | v => v
@@ -442,6 +442,24 @@ def decodeString : Val → Option Str
   | .str s => some s
   | .null => some []                 -- nil input leaves the zero value
   | _ => none
+
+/-- decoding into a `*string` (or pointer to a named string type) field: a string target as well; `some none` = nil -/
+def decodePtrString : Val → Option (Option Str)
+  | .expanded _ o => some (some o)
+  | .str s => some (some s)
+  | .null => some none                -- nil input: the pointer stays nil
+  | _ => none
+
+/-- decoding the value under a key into `struct{ V string \`mapstructure:"v"\` }` -/
+def decodeNestedString : Val → Option Str
+  | .null => some []
+  | .map m => (match m.lookup ['v'] with | none => some [] | some x => decodeString x)
+  | .expanded .null _ => some []      -- zero value of the struct
+  | .expanded (.map m) _ => (match m.lookup ['v'] with | none => some [] | some x => decodeString x)
+  | _ => none                         -- "expected a map"
+
+/-- decoding into an `any` field (repaired code): the parsed values, never an `expandedValue`, never a panic -/
+def decodeAny (v : Val) : Val := sanitize false v
 
 /-- decoding into an `int` field: the parsed value is used -/
 def decodeInt : Val → Option Int
